@@ -5,6 +5,7 @@ CONSTANTS
  HashSession = TRUE
  HashId = TRUE
  DedupMode = "peer+id"
+ AllowRelay = FALSE
  GenLen = 12
 INVARIANTS Emit
 CHECK_DEADLOCK FALSE
